@@ -43,6 +43,24 @@ def size_answers(F, S, f):
         outs = S.run(f['id'], this=('sym', 'this'), args=[])
     except Unsupported as e:
         raise AnalysisBroken(f'{f["id"]}: {e}')
+    this = ('sym', 'this')
+    try:
+        d, _sz = store_of(F, S, f['parent'])
+    except AnalysisBroken:
+        d = None
+
+    def reads(t, acc):
+        """how the term reaches the scope object: 'store' through the store member, 'other' any other way"""
+        if not isinstance(t, tuple):
+            return
+        if d is not None and t == ('fld', this, d):
+            acc.add('store')
+            return
+        if t == this:
+            acc.add('other')
+            return
+        for x in t:
+            reads(x, acc)
     res = []
     for st, k, v in outs:
         if k != 'return':
@@ -50,10 +68,15 @@ def size_answers(F, S, f):
         t = v
         while isinstance(t, tuple) and t and t[0] in ('castto', 'after', 'narrow'):
             t = t[2]
-        if isinstance(t, tuple) and ((t[:1] in (('call',), ('vcall',)) and contracts.fn_simple(t[1]).split('<')[0] in ('size', 'distance')) or t[:1] == ('k',)):
-            res.append((st, v, 'store', None))
-        elif isinstance(t, tuple) and t[:2] == ('fld', ('sym', 'this')):
+        how = set()
+        reads(t, how)
+        if isinstance(t, tuple) and t[:2] == ('fld', this) and len(t) == 3 and t[2] != d:
             res.append((st, v, 'member', t[2]))
+        elif isinstance(t, tuple) and (t[:1] == ('k',) or how == {'store'}):
+            # a constant (a store of fixed size, its size() inlined) or a value computed from observations of the store alone
+            res.append((st, v, 'store', None))
+        elif isinstance(t, tuple) and t[:1] in (('call',), ('vcall',)) and contracts.fn_simple(t[1]).split('<')[0] in ('size', 'distance') and 'other' not in how:
+            res.append((st, v, 'store', None))
         else:
             res.append((st, v, 'other', None))
     return res
